@@ -176,7 +176,11 @@ func runIPServer(ctx context.Context, log *slog.Logger, mtrcs *ipServerMetrics,
 				continue
 			}
 
-			ntsresp := nts.NewResponsePacket(cookies, serverCookie.S2C, ntsreq.UniqueID.ID)
+			ntsresp, err := nts.NewResponsePacket(cookies, serverCookie.S2C, ntsreq.UniqueID.ID)
+			if err != nil {
+				log.LogAttrs(ctx, slog.LevelInfo, "failed to create NTS response packet", slog.Any("error", err))
+				continue
+			}
 			err = nts.EncodePacket(&buf, &ntsresp)
 			if err != nil {
 				log.LogAttrs(ctx, slog.LevelInfo, "failed to encode NTS packet", slog.Any("error", err))
